@@ -74,7 +74,8 @@ def run(R, ctx):
                                   "(one key of each type, an expired key, a missing key, the empty key) x a %d-word adversarial alphabet "
                                   "(numeric extremes, option words of every family, metacharacters, CR/LF, float specials), arities 3-6 sampled; "
                                   "each program seeds one key of each type, runs 25 vectors and then probes that old and new keys still answer" % len(ALPHA),
-                             extra_lines=lines, events=True)
+                             extra_lines=lines, events=True,
+                             shards=([1] if R.tier == "quick" else [1, 2, 1024]))   # ShardNum 1: two lock stripes, so distinct keys collide
     R.extra["enumeration"] = dict(commands=len(commands), vectors=len(vecs), alphabet=len(ALPHA), keys=len(KEYS), exhaustive_arity_le=2, exhaustive=False)
 
 
